@@ -421,6 +421,11 @@ pub fn exec_project(input: &Value) -> (Value, Value) {
         if let Some(m) = &cfg.type_mappings {
             analyzer.add_type_mappings(m);
         }
+        // the analyser is a reusable object (a watcher re-analyses with the one it has): with `reanalyse` the project is
+        // analysed twice by the same object and the second analysis is the one that is generated from
+        if input["project"].get("reanalyse").and_then(|x| x.as_bool()).unwrap_or(false) {
+            let _ = analyzer.analyze_project(&cfg.project_path);
+        }
         let commands = match analyzer.analyze_project(&cfg.project_path) {
             Ok(c) => c,
             Err(e) => return json!({"analysis_error": e.to_string()}),
@@ -559,7 +564,10 @@ fn simple_ty2(rng: &mut Rng, names: &[String], depth: usize, nocomma: bool) -> R
     match rng.below(7) {
         0 => RTy::Opt(Box::new(inner)),
         1 | 2 => if is_opt { inner } else { RTy::Vec(Box::new(inner)) },
-        3 => if nocomma { inner } else { RTy::HMap(Box::new(RTy::Prim("String".into())), Box::new(inner)) },
+        3 => if nocomma { inner } else if !names.is_empty() && rng.chance(1, 4) {
+            // a tuple of project types as map value (`HashMap<String, (Marker, Region)>`)
+            RTy::HMap(Box::new(RTy::Prim("String".into())), Box::new(RTy::Tup(vec![RTy::Named(rng.pick(names).clone()), RTy::Named(rng.pick(names).clone())])))
+        } else { RTy::HMap(Box::new(RTy::Prim("String".into())), Box::new(inner)) },
         4 => if is_opt { inner } else { RTy::HSet(Box::new(inner)) },
         5 => RTy::Ref(Box::new(inner)),
         _ => inner,
@@ -1088,7 +1096,7 @@ pub fn random_project(rng: &mut Rng, nfiles: usize, adversarial: bool, externs: 
         // nothing below the project path is excluded by that
         return json!({"files": files, "root_prefix": "clients/target/pos-app", "relative": true});
     }
-    json!({"files": files, "root_prefix": if adversarial && rng.chance(1, 6) { "x/target/y" } else { "" }})
+    json!({"files": files, "root_prefix": if adversarial && rng.chance(1, 6) { "x/target/y" } else { "" }, "reanalyse": rng.chance(1, 6)})
 }
 
 /// group `project`: whole-pipeline cases
